@@ -23,7 +23,10 @@ OTHER = [
     ("mo", ["restricted", "unrestricted"]),
     ("norm_threshold", [1e-4, 1e-3, 1e-6]),
     ("corruption", ["none", "primitive-scaled", "mo-coefficient-perturbed", "two-quirks-mixed", "function-dropped-sign"]),
+    ("primitive_order", ["decreasing", "increasing", "increasing-tight-last"]),  # the formats do not prescribe an order of the primitives
+    ("geometry", ["bonded", "stretched"]),
 ]
+ATOMS_OF = {"bonded": ATOMS, "stretched": [(8, 0.0, 0.0, 0.0), (1, 0.0, 2.4, 1.8)]}
 
 
 def shell_sets(lmax):
@@ -43,12 +46,15 @@ def shell_sets(lmax):
     return out
 
 
-def true_wavefunction(shellset, mo_kind, seed):
+def true_wavefunction(shellset, mo_kind, seed, atoms=ATOMS, tight=False):
     """Plain-data wavefunction with normalised contractions and a complete orthonormal orbital set."""
     shells = []
     for j, (l, kind) in enumerate(shellset):
         exps = EXP2[l]
         raw = [0.6, 0.5]
+        if tight:  # a third, much tighter primitive (listed last once the order is reversed)
+            exps = [exps[0] * 10.0, *exps]
+            raw = [0.3, *raw]
         one = [(0, l, kind, exps, raw)]
         conv = {(l, kind): vendors.MOLDEN[(l, kind)]}
         gshell = [(0, [l], [kind], exps, [[c] for c in raw])]
@@ -56,7 +62,7 @@ def true_wavefunction(shellset, mo_kind, seed):
         shells.append(((l + j) % 2, l, kind, exps, [c / norm for c in raw]))
     shells.sort(key=lambda s: s[0])
     gshells = [(ic, [l], [k], e, [[c] for c in co]) for ic, l, k, e, co in shells]
-    coords = np.array([a[1:] for a in ATOMS])
+    coords = np.array([a[1:] for a in atoms])
     s = gto.overlap(gshells, vendors.MOLDEN, coords)
     nb = s.shape[0]
     ca = common.lowdin_orthonormal(s, common.int_matrix(nb, nb, seed))
@@ -110,7 +116,8 @@ def worker(chunk, seed, tier):
             if len(part.samples) < 1 and vendor == "orca":
                 part.sample(info)
             thr = other["norm_threshold"]
-            shells, gshells, coords, orbs, coeffs, nelec, mult = true_wavefunction(shellset, other["mo"], seed)
+            atoms = ATOMS_OF[other.get("geometry", "bonded")]
+            shells, gshells, coords, orbs, coeffs, nelec, mult = true_wavefunction(shellset, other["mo"], seed, atoms, tight=other.get("primitive_order") == "increasing-tight-last")
             truth = gto.eval_orbitals(coeffs, gto.eval_basis(gshells, vendors.MOLDEN, coords, pts))
             enc_shells, enc_orbs, differs = vendors.encode(vendor, shells, orbs, seed)
             if other["corruption"] == "two-quirks-mixed":
@@ -123,11 +130,13 @@ def worker(chunk, seed, tier):
                 enc_shells = [alt_shells[0]] + enc_shells[1:]
             elif other["corruption"] != "none":
                 enc_shells, enc_orbs = corrupt(other["corruption"], enc_shells, enc_orbs, thr)
+            if other.get("primitive_order", "decreasing") != "decreasing":
+                enc_shells = [(ic, l, k, list(e)[::-1], list(c)[::-1]) for ic, l, k, e, c in enc_shells]
             if other["container"] == "molekel":
-                text = vendors.write_molekel(ATOMS, enc_shells, enc_orbs, int(sum(a[0] for a in ATOMS) - nelec), mult)
+                text = vendors.write_molekel(atoms, enc_shells, enc_orbs, int(sum(a[0] for a in atoms) - nelec), mult)
                 path = str(tmp / "v.mkl")
             else:
-                text = vendors.write_molden(ATOMS, enc_shells, enc_orbs, "AU" if other["container"] == "molden-au" else "Angs")
+                text = vendors.write_molden(atoms, enc_shells, enc_orbs, "AU" if other["container"] == "molden-au" else "Angs")
                 path = str(tmp / "v.molden")
             with open(path, "w") as fh:
                 fh.write(text)
@@ -242,6 +251,12 @@ def run(ctx):
                 if o["container"] == "molekel" and any(l == 5 for l, _ in ss):
                     continue
                 jobs.append((ss, vendor, o))
+            if not heavy or ctx.thorough:
+                # primitive order x distance as a full product (the normalisation check depends on screened overlaps)
+                base = {n: m[0] for n, m in OTHER}
+                o = dict(base, primitive_order="increasing-tight-last", geometry="stretched")
+                if o not in others:
+                    jobs.append((ss, vendor, o))
     jobs.sort(key=lambda j: -sum((l + 1) ** 3 for l, _ in j[0]))
     pmap(ctx, worker, jobs, chunk=4)
     corpus_anchor(ctx)
@@ -250,7 +265,7 @@ def run(ctx):
     ctx.rule = (
         f"full product of every non-empty subset of angular momenta 0..{lmax} (each l>=2 Cartesian or pure) x the 7 encodings (standard, ORCA, PSI4<=1.0, Turbomole, CFOUR 2.1, unnormalised contractions, "
         f"PSI4<=1.3.2; only shell types the vendor quirk covers) x deviation-bounded (k<={k}) variation of container {{Molden AU, Molden Angs, Molekel}}, orbitals {{restricted, unrestricted}}, "
-        "norm_threshold {1e-4,1e-3,1e-6}, corruption {none, one primitive scaled, one MO coefficient perturbed, two vendors mixed, sign of one coefficient}; files are produced by independent writers and "
+        "norm_threshold {1e-4,1e-3,1e-6}, primitive order {decreasing, increasing, increasing with a 10x tighter third primitive}, geometry {bonded, stretched} (these two also combined), corruption {none, one primitive scaled, one MO coefficient perturbed, two vendors mixed, sign of one coefficient}; files are produced by independent writers and "
         "encoders (ref/vendors.py) from a true wavefunction with a complete orthonormal orbital set; loaded orbitals are compared with the truth at 10 probe points via ref/gto.py. Corpus vendor files anchor the encoders."
     )
     ctx.assumptions += ["the encoders restate the quirks as iodata documents them (inverse of the documented corrections)",
